@@ -348,7 +348,13 @@ impl<'a> ToTokens for WriteWithFn<'a> {
                 }
             }
             BodyFields::StdBody(fields) => {
-                let num_slots = compute_num_slots(root, fields, false);
+                let num_slots = if fields_model.body_kind == CompoundTypeKind::Labelled {
+                    compute_num_slots(root, fields, false)
+                } else {
+                    // Unlabelled fields are always written (`write_value`), never omitted.
+                    let n = fields.len();
+                    quote!(let num_slots: usize = #n;)
+                };
 
                 let (body_kind, statements) =
                     if fields_model.body_kind == CompoundTypeKind::Labelled {
@@ -470,7 +476,13 @@ impl<'a> ToTokens for WriteIntoFn<'a> {
                 }
             }
             BodyFields::StdBody(fields) => {
-                let num_slots = compute_num_slots(root, fields, true);
+                let num_slots = if fields_model.body_kind == CompoundTypeKind::Labelled {
+                    compute_num_slots(root, fields, true)
+                } else {
+                    // Unlabelled fields are always written (`write_value_into`), never omitted.
+                    let n = fields.len();
+                    quote!(let num_slots: usize = #n;)
+                };
 
                 let (body_kind, statements) =
                     if fields_model.body_kind == CompoundTypeKind::Labelled {
